@@ -84,11 +84,11 @@ func workerMain() {
 			last = p
 			var ms runtime.MemStats
 			runtime.ReadMemStats(&ms)
-			if ms.HeapAlloc > 6<<30 {
+			if ms.HeapAlloc > 3<<30 {
 				send(out, &Msg{ID: int(atomic.LoadInt64(&curJob)), OOM: curKey.Load().(string)})
 				os.Exit(4)
 			}
-			if stuck >= 20 {
+			if stuck >= 6 {
 				send(out, &Msg{ID: int(atomic.LoadInt64(&curJob)), Hang: curKey.Load().(string)})
 				os.Exit(3)
 			}
